@@ -183,6 +183,7 @@ fn op_name(op: Op) -> &'static str {
         Op::SemClose => "sem.close",
         Op::SemIsClosed => "sem.is_closed",
         Op::SemPermitDrop => "sem.permit-drop",
+        Op::SemAvailablePermits => "sem.available_permits",
     }
 }
 
